@@ -257,12 +257,6 @@ func (i *interpreter) euclid(x, d *smt.Term) (q, r *smt.Term) {
 		ad := new(big.Int).Abs(dv)
 		rhi = new(big.Int).Sub(ad, big1)
 		rlo = new(big.Int).Neg(rhi)
-		if x.Lo != nil && x.Lo.Sign() >= 0 {
-			rlo = big0
-		}
-		if x.Hi != nil && x.Hi.Sign() <= 0 {
-			rhi = big0
-		}
 		if x.Lo != nil && x.Hi != nil {
 			a := new(big.Int).Quo(x.Lo, dv)
 			b := new(big.Int).Quo(x.Hi, dv)
@@ -271,6 +265,12 @@ func (i *interpreter) euclid(x, d *smt.Term) (q, r *smt.Term) {
 			}
 			qlo, qhi = a, b
 		}
+	}
+	if x.Lo != nil && x.Lo.Sign() >= 0 {
+		rlo = big0
+	}
+	if x.Hi != nil && x.Hi.Sign() <= 0 {
+		rhi = big0
 	}
 	q = c.Fresh("q", smt.SInt, qlo, qhi)
 	r = c.Fresh("r", smt.SInt, rlo, rhi)
@@ -712,37 +712,59 @@ func (i *interpreter) fround(r *smt.Term) *smt.Term {
 			}
 			v := c.Fresh("fv", smt.SReal, nil, nil)
 			v.AddDef(c.And(c.Le(c.Sub(r, eps), v), c.Le(v, c.Add(r, eps))))
+			v.Hint = c.Eq(v, r)
 			i.run.stats.frounds++
 			return v
 		}
-		// m = floor(2n/d) by an integer witness: 2n = m*d + rem, rem in [0,|d|) with the sign of d
-		m := c.Fresh("fm", smt.SInt, nil, nil)
-		rem := c.Fresh("frem", smt.SInt, nil, nil)
-		n2 := c.Mul(c.Int64(2), n)
-		var remRange *smt.Term
-		if dv, ok := d.ConstInt(); ok {
-			if dv.Sign() <= 0 {
-				unsup("fround: non-positive constant denominator")
+		// Normalise signs (IEEE rounding is symmetric: fl(-x) = -fl(x)), then
+		// m = floor(2|n|/|d|) through the shared Euclid witnesses of (2|n|, |d|).
+		neg := false
+		if !(n.Lo != nil && n.Lo.Sign() >= 0) {
+			if n.Hi != nil && n.Hi.Sign() < 0 || !i.branch(c.Ge(n, c.Int64(0))) {
+				n = c.Neg(n)
+				neg = !neg
 			}
-			remRange = c.And(c.Le(c.Int64(0), rem), c.Lt(rem, d))
-		} else {
-			remRange = c.And(
-				c.Implies(c.Gt(d, c.Int64(0)), c.And(c.Le(c.Int64(0), rem), c.Lt(rem, d))),
-				c.Implies(c.Lt(d, c.Int64(0)), c.And(c.Lt(d, rem), c.Le(rem, c.Int64(0)))))
 		}
-		def := c.And(c.Eq(n2, c.Add(c.Mul(m, d), rem)), remRange)
-		m.AddDef(def)
-		rem.AddDef(def)
-		v := c.Fresh("fv", smt.SReal, nil, nil)
-		mr := c.ToReal(m)
-		small := c.Le(absr, c.Real(ratTwo52))
-		v.AddDef(c.And(
-			c.Implies(small, c.And(c.Le(c.Mul(half, mr), v), c.Le(v, c.Mul(half, c.Add(mr, one))))),
-			c.Implies(c.And(small, c.Eq(rem, c.Int64(0))), c.Eq(v, r)),
-			c.Le(c.Sub(r, eps), v), c.Le(v, c.Add(r, eps)),
-		))
-		i.run.memo[key] = v
-		i.run.stats.frounds++
+		if dv, ok := d.ConstInt(); ok {
+			if dv.Sign() == 0 {
+				unsup("fround: zero denominator")
+			}
+			if dv.Sign() < 0 {
+				d = c.Neg(d)
+				neg = !neg
+			}
+		} else if !(d.Lo != nil && d.Lo.Sign() > 0) {
+			if d.Hi != nil && d.Hi.Sign() < 0 || !i.branch(c.Gt(d, c.Int64(0))) {
+				d = c.Neg(d)
+				neg = !neg
+			}
+		}
+		ra := c.Mul(c.ToReal(n), c.DivR(one, c.ToReal(d))) // |r|
+		if dv, ok := d.ConstInt(); ok {
+			ra = c.Mul(c.Real(new(big.Rat).SetFrac(big1, dv)), c.ToReal(n))
+		} else {
+			ra = c.DivR(c.ToReal(n), c.ToReal(d))
+		}
+		key2 := fmt.Sprintf("frr_%d_%d", n.ID, d.ID)
+		v, ok := i.run.memo[key2]
+		if !ok {
+			m, rem := i.euclid(c.Mul(c.Int64(2), n), d)
+			v = c.Fresh("fv", smt.SReal, nil, nil)
+			mr := c.ToReal(m)
+			small := c.Le(ra, c.Real(ratTwo52))
+			epsA := c.Mul(c.Real(ulpHalf), ra)
+			v.AddDef(c.And(
+				c.Implies(small, c.And(c.Le(c.Mul(half, mr), v), c.Le(v, c.Mul(half, c.Add(mr, one))))),
+				c.Implies(c.And(small, c.Eq(rem, c.Int64(0))), c.Eq(v, ra)),
+				c.Le(c.Sub(ra, epsA), v), c.Le(v, c.Add(ra, epsA)),
+			))
+			v.Hint = c.Eq(v, ra)
+			i.run.memo[key2] = v
+			i.run.stats.frounds++
+		}
+		if neg {
+			return c.Neg(v)
+		}
 		return v
 	}
 	v := c.Fresh("fv", smt.SReal, nil, nil)
@@ -760,6 +782,7 @@ func (i *interpreter) fround(r *smt.Term) *smt.Term {
 		// standard model
 		c.Le(c.Sub(r, eps), v), c.Le(v, c.Add(r, eps)),
 	))
+	v.Hint = c.Eq(v, r)
 	i.run.memo[key] = v
 	i.run.stats.frounds++
 	return v
@@ -770,6 +793,9 @@ func (i *interpreter) intToFloat(x *smt.Term) *smt.Term {
 	c := i.run.ctx
 	xr := c.ToReal(x)
 	if x.InRange(new(big.Int).Neg(two53), two53) {
+		return xr
+	}
+	if i.branch(c.And(c.Le(c.Int(new(big.Int).Neg(two53)), x), c.Le(x, c.Int(two53)))) {
 		return xr
 	}
 	key := fmt.Sprintf("i2f_%d", x.ID)
